@@ -653,6 +653,121 @@ def _install_pot_to_t4():
 _install_pot_to_t4()
 
 
+# ------------------------------------------------------------------ pot_convert / convert_cellref (glue, callees by contract)
+
+def _convert_hooks(state):
+    def stage(name, empty_possible=False):
+        def hook(it, f, args, kw):
+            tree = args[1]
+            it.p.calls.append({'callee': name, 'args': list(args[1:]), 'kw': dict(kw), 'result': None})
+            if empty_possible and state.get('empty'):
+                return None
+            res = OpaqueNode(den=tree.den, stage=name, of=tree)
+            it.p.calls[-1]['result'] = res
+            return res
+        hook.callee_name = name
+        return hook
+
+    def to_t4(it, f, args, kw):
+        conv, tree = args[0], args[1]
+        conv.new_cell_key += 1
+        k = conv.new_cell_key
+        state['den_of_volume'][k] = tree.den
+        it.p.calls.append({'callee': 'pot_to_t4_cell', 'args': list(args[1:]), 'kw': dict(kw), 'result': k})
+        return k
+    to_t4.callee_name = 'pot_to_t4_cell'
+    return {CellConversion.pot_flag: stage('pot_flag'), CellConversion.pot_expand_surfs: stage('pot_expand_surfs'),
+            CellConversion.pot_optimise: stage('pot_optimise', True), CellConversion.pot_to_t4_cell: to_t4}
+
+
+_CONVERT_STATE = {'den_of_volume': {}}
+
+
+@contract(CellConversion.pot_convert, props=['C01', 'C08', 'C05'], name='CellConversion.pot_convert')
+class _PotConvert:
+    """A cell's tree goes through numbering, macrobody expansion, optimisation and volume construction, in that
+    order, each stage fed with the result of the one before (matching / idorigin / union_ids handed on unchanged).
+    Each stage preserves the denotation (their own contracts), so the volume returned denotes the cell; when the
+    optimiser returns None (the tree is patently empty: its contract) no volume is built and None is returned."""
+    native = False
+    hooks = _convert_hooks(_CONVERT_STATE)
+
+    def cases(S):
+        yield 'cell', {'empty': False, 'd': S.bool('den_cell')}
+        yield 'patently-empty-cell', {'empty': True, 'd': S.bool('den_cell')}
+
+    def call(empty, d):
+        _CONVERT_STATE['empty'] = empty
+        _CONVERT_STATE['den_of_volume'] = {}
+        g = OpaqueNode(den=d, tag='geometry')
+        cell = CellMCNP('1', '-1.0', g, 1.0, 0, None, (), None, [], [(7, 3)])
+        conv = new_conv(cells={20: cell}, cell_key=500)
+        matching, union_ids = {'m': 1}, (901, 902)
+        return conv.pot_convert(cell, matching, union_ids), g, matching, union_ids, dict(_CONVERT_STATE['den_of_volume'])
+
+    def ensures(result, empty, d, calls):
+        res, g, matching, union_ids, dens = result
+        order = [c['callee'] for c in calls.calls]
+        if empty:
+            yield 'empty-cell-yields-no-volume', res is None and order == ['pot_flag', 'pot_expand_surfs', 'pot_optimise']
+            return
+        yield 'stages-in-order', order == ['pot_flag', 'pot_expand_surfs', 'pot_optimise', 'pot_to_t4_cell']
+        if order != ['pot_flag', 'pot_expand_surfs', 'pot_optimise', 'pot_to_t4_cell']:
+            return
+        c = calls.calls
+        yield 'numbering-of-the-cell-geometry', c[0]['args'][0] is g
+        yield 'expansion-of-the-numbered-tree-with-the-matching', c[1]['args'][0] is c[0]['result'] and c[1]['args'][1] is matching
+        yield 'optimisation-of-the-expanded-tree', c[2]['args'][0] is c[1]['result']
+        yield 'volumes-of-the-optimised-tree', (c[3]['args'][0] is c[2]['result'] and c[3]['args'][1] == [(7, 3)]
+                                                and c[3]['args'][2] is matching and c[3]['args'][3] == union_ids)
+        yield 'returns-the-volume', res == c[3]['result']
+        yield 'volume-denotes-the-cell', res in dens and iff(dens[res], d)
+
+
+@contract(CellConversion.convert_cellref, props=['C01', 'C08', 'C05', 'C13'], name='CellConversion.convert_cellref')
+class _ConvertCellref:
+    """The volume of a referenced cell is built once: a second reference to the same cell returns the same volume
+    without converting again, a reference to another cell converts that cell; an empty cell (None) stays None."""
+    native = False
+
+    def cases(S):
+        for label, seq in (('same-cell-twice', (31, 31)), ('two-cells', (31, 32)), ('empty-cell-twice', (33, 33)),
+                           ('cell-empty-cell-cell', (31, 33, 31))):
+            yield label, {'seq': seq}
+
+    def call(seq):
+        cells = {k: CellMCNP('1', '-1.0', OpaqueNode(tag=f'g{k}'), 1.0, 2, None, (), None, [], []) for k in (31, 32, 33)}
+        conv = new_conv(cells=cells, cell_key=500)
+        return [conv.convert_cellref(k, {}, (901, 902)) for k in seq], cells
+
+    def ensures(result, seq, calls):
+        res, cells = result
+        converted = [c['args'][0] for c in calls.calls if c['callee'] == 'pot_convert']
+        yield 'results', all((r is None) == (k == 33) for r, k in zip(res, seq))
+        yield 'same-cell-same-volume', all(res[i] == res[j] for i in range(len(seq)) for j in range(i) if seq[i] == seq[j])
+        yield 'different-cells-different-volumes', all(res[i] != res[j] for i in range(len(seq)) for j in range(i)
+                                                       if seq[i] != seq[j] and res[i] is not None and res[j] is not None)
+        yield 'each-non-empty-cell-converted-once', all(sum(1 for c in converted if c is cells[k]) == 1
+                                                        for k in set(seq) if k != 33)
+        yield 'converted-cells-are-the-referenced-ones', all(any(c is cells[k] for k in seq) for c in converted)
+
+
+def _install_cellref_hook():
+    def pot_convert(it, f, args, kw):
+        conv, cell = args[0], args[1]
+        it.p.calls.append({'callee': 'pot_convert', 'args': list(args[1:]), 'kw': dict(kw), 'result': None})
+        if cell.geometry.facts.get('tag') == 'g33':
+            return None
+        conv.new_cell_key += 1
+        it.p.calls[-1]['result'] = conv.new_cell_key
+        return conv.new_cell_key
+    pot_convert.callee_name = 'pot_convert'
+    _ConvertCellref.hooks = {CellConversion.pot_convert: pot_convert}
+
+
+_install_cellref_hook()
+
+
 @contract(CellConversion.convert_surface, props=['C01', 'C08'], name='CellConversion.convert_surface', status='B')
 class _ConvSurface:
     """A leaf literal becomes a volume whose EQUA part is exactly that literal; the same literal is converted once
